@@ -638,7 +638,7 @@ func errDerivedFromValue(v ssa.Value, src ssa.Value) bool {
 // okEdgesLookup: edges on which a comma-ok map lookup found / did not find the key.
 func (g *IG) okEdgesLookup(lk *ssa.Lookup) (found, missing map[edge]bool) {
 	found, missing = map[edge]bool{}, map[edge]bool{}
-	for _, ifi := range ifsOf(g.Fn) {
+	for _, ifi := range g.ifs() {
 		for _, outcome := range []bool{true, false} {
 			f, ok := condFact(ifi.Cond, outcome)
 			if !ok || !f.Bool {
